@@ -18,7 +18,8 @@ Reading used here (plain set bookkeeping over the script, no log, no Raft):
 * "harmless no-op" = the call succeeds; that nothing changed is what `agree` and `pinset_kept` then demand;
 * "cannot be removed" = the call fails (and `agree` demands the peer is still reported);
 * "before it reports itself ready" = the pinset read at the instant `Ready()` fired;
-* "stops itself" = `Done()` closed; "discards its consensus data" = the Raft data folder no longer holds the database;
+* "stops itself" = `Done()` closed; "discards its consensus data" = after `Clean` the Raft data folder holds neither
+  the database nor a snapshot (every time the peer is removed, however often it was removed before);
 * "re-homed first" = in the calls `PeerRemove` made, every pin that the removal leaves with fewer holders than
   its minimum factor, and that the other members can take, was logged again without the peer before `RmPeer` was called;
 * the no-op clauses are asked of calls issued at remaining members (a removed peer that still runs may fail them).
@@ -55,7 +56,7 @@ def advance (s : SpecSt) : Op → SpecSt
   | .sync .. => s
   | .stop j => { s with running := erasePeer j s.running }
   | .restart j => { s with running := insertPeer j s.running, departed := erasePeer j s.departed }
-  | .clean j _ => { s with running := erasePeer j s.running }
+  | .clean j _ _ => { s with running := erasePeer j s.running }
   | .join j _ res _ =>
     if okB res then { s with members := insertPeer j s.members, running := insertPeer j s.running, departed := erasePeer j s.departed } else s
   | .peerRm _ p res calls =>
@@ -105,7 +106,7 @@ def checkOp (repin : Bool) (s : SpecSt) : Op → List (String × Bool)
      ("rehomed_first", !(repin && okB res) ||
         s.pinset.all (fun pin => !(needsRehome s.members p pin && canRehome s.members p pin) || rehomedBefore calls p pin.cid))]
   | .leave j res => [("last_peer_kept", !(s.members == [j]) || !okB res)]
-  | .clean j gone => [("removed_cleans", s.members.contains j || gone)]
+  | .clean j gone _ => [("removed_cleans", s.members.contains j || gone)]
   | _ => []
 
 def checkOps (repin : Bool) : SpecSt → List Op → List (String × Bool)
